@@ -107,9 +107,14 @@ def build_call(pt, case):
             args.append(pt.Int(a) if rng.random() < .5 else pt.Btoi(pt.Itob(pt.Int(a))))
             given.append(("asset", a))
         elif k == "application":
-            a = rng.randrange(1000, 2000)
-            args.append(pt.Int(a))
-            given.append(("application", a))
+            if rng.random() < .25:
+                # "call me back": the caller's own id; the callee must resolve the reference to the caller (77 in the reference AVM)
+                args.append(pt.Global.current_application_id())
+                given.append(("application", 77))
+            else:
+                a = rng.randrange(1000, 2000)
+                args.append(pt.Int(a))
+                given.append(("application", a))
         else:
             st = sabi.ABIType.from_string(k)
             v = abigen.rand_val(rng, st)
